@@ -22,7 +22,7 @@ func vSetup() (d *tcpDriver, cfg *TCPv4, sink *N.Sink, src *N.Source, min, m uin
 	cfg.srcIP = local
 	cfg.srcPort = V.U16("sport")
 	cfg.LoosenICMPSrc = V.ParamInt("loosen", 0) == 1
-	sink, src = &N.Sink{}, &N.Source{}
+	sink, src = &N.Sink{Takes: V.ParamInt("writeTakes", 0) == 1}, &N.Source{}
 	d = newTCPDriver(cfg, sink, src)
 	if !paris {
 		d.basePacketID = V.U16("baseID") // arbitrary allocator state, wrap-around included
